@@ -218,8 +218,39 @@ func runC15(c *Ctx) {
 		c.MustLoopBack("C15-R3", rm, `^TxPool\.enqueueTx$`, []LitReq{
 			{Name: "each invalidated follower is enqueued", Re: `^call:TxPool\.enqueueTx$`},
 		})
+		// add(): the "does it replace a pending transaction" decision reads the pending list after the pool-full
+		// eviction, never before it: the eviction may remove an earlier transaction of the same sender and move the
+		// very transaction being replaced into the queue (it would then be pending and queued at once, behind a gap)
+		ad := c.Fn("core:(*TxPool).add")
+		ovs, rms := callSites(ad, `^txList\.Overlaps$`), callSitesOf(ad, rm)
+		adds := callSites(ad, `^txList\.Add$`)
+		okFresh := len(ovs) >= 1 && len(rms) >= 1 && len(adds) >= 1
+		nDec := 0
+		for _, ov := range ovs {
+			// only the probe whose result decides the replacement (flows into a branch that guards list.Add)
+			decides := false
+			for _, a := range adds {
+				if flowsToGuardOf(ov.Value(), a) {
+					decides = true
+				}
+			}
+			if !decides {
+				continue
+			}
+			nDec++
+			for _, r := range rms {
+				if ov.Block() == r.Block() {
+					if instrDominates(ov, r) {
+						okFresh = false
+					}
+				} else if reaches(ov.Block(), r.Block(), nil) {
+					okFresh = false
+				}
+			}
+		}
+		c.Ob("C15-R3", "add: the pending-overlap decision is taken after every eviction (no removeTx can run between Overlaps and the insert)", c.FnPos(ad), okFresh && nDec >= 1, fmt.Sprintf("%d Overlaps sites (%d deciding the replacement), %d removeTx sites", len(ovs), nDec, len(rms)))
 	})
-	c.Min("C15-R3", 13)
+	c.Min("C15-R3", 14)
 
 	c.Rule("C15-R4", "reset pipeline: state first, then demote, then promote; reorg re-injection is TxDifference(discarded, included) with a symmetric depth limit", func() {
 		rs := c.Fn("core:(*TxPool).reset")
@@ -297,4 +328,48 @@ func runC15(c *Ctx) {
 		}
 	})
 	c.Min("C15-R4", 9)
+}
+
+// flowsToGuardOf: v reaches (through phis, negations and boolean operators) the condition of a branch whose taken
+// side dominates instruction target.
+func flowsToGuardOf(v ssa.Value, target ssa.Instruction) bool {
+	if v == nil {
+		return false
+	}
+	seen := map[ssa.Value]bool{}
+	var walk func(x ssa.Value) bool
+	walk = func(x ssa.Value) bool {
+		if seen[x] {
+			return false
+		}
+		seen[x] = true
+		refs := x.Referrers()
+		if refs == nil {
+			return false
+		}
+		for _, r := range *refs {
+			switch y := r.(type) {
+			case *ssa.If:
+				for _, s := range y.Block().Succs {
+					if len(s.Preds) == 1 && s.Dominates(target.Block()) {
+						return true
+					}
+				}
+			case *ssa.Phi:
+				if walk(y) {
+					return true
+				}
+			case *ssa.UnOp:
+				if walk(y) {
+					return true
+				}
+			case *ssa.BinOp:
+				if walk(y) {
+					return true
+				}
+			}
+		}
+		return false
+	}
+	return walk(v)
 }
